@@ -12,8 +12,8 @@ PID = 'C09'
 LEVEL = 'exploration'
 ENGINE = 'E1'
 TECHNIQUE = 'bounded exhaustive enumeration of all custom tables (3..5 nodes over a 6-Mach x 3-CD alphabet) and the nine shipped tables at every critical point (nodes, midpoints, +-1 ulp, interior grid, beyond the table) against a Lagrange-parabola reference; band/positivity decided analytically per identified quadratic piece'
-RULE = ('shipped cells = 9 tables x BC {0.001,.223,1,12}; custom cells = every strictly ascending node set of size 3..5 over Mach {0,.5,1,1.2,2,5} '
-        'x CD in {.1,.3,.5}^n (3213 tables); each cell queries every node, node+-1ulp, every midpoint, midpoint+-1ulp, 15 interior points per '
+RULE = ('shipped cells = 9 tables x BC {0.001,.223,1,12}; custom cells = every strictly ascending node set of size 3..5 over Mach {0,.5,1,1.2,2,5} and 5-node tables with nodes 0.005 / 0.001 Mach apart (incl. a dense cluster inside a coarse table) '
+        'x CD in {.1,.3,.5}^n (4428 tables in the quick tier); each cell queries every node, node+-1ulp, every midpoint, midpoint+-1ulp, 15 interior points per '
         'half interval and {1.5,3,10} x last node; rebind cells = one long-lived calculator, drag model BC / table edited in place or model replaced between calls x 3 tables x 3 BC pairs; api cell = all nine tables digested before/after a battery of public calls; '
         'non-trivial = table with >= 4 nodes (so interior parabolas differ) or a shipped table')
 ASSUMPTIONS = ['published tables: identity with the pinned snapshot digest (golden/drag_tables.json) is what is checked, no independent copy exists offline',
@@ -67,24 +67,49 @@ def queries(pts):
     return [q for q in qs if q >= 0]
 
 
+EPS = 2.220446049250313e-16
+
+
+def slack(tri, q):
+    """rounding allowance for evaluating the parabola through three nodes in monomial form a q^2 + b q + c (what "lies on the parabola" can mean
+    in floating point): the three terms cancel down to the value, and the determinant of the fit cancels by |x| / spacing. Negligible (< 1e-12)
+    for tables spaced like the shipped ones; matters for custom tables with nodes a few thousandths of a Mach apart."""
+    a, b, c = lagr_coef(tri)
+    xs = [x for x, _ in tri]
+    sp = min(xs[1] - xs[0], xs[2] - xs[1])
+    cond = 1.0 + max(abs(x) for x in xs + [q]) / sp
+    (x1, y1), (x2, y2), (x3, y3) = tri
+    # the reference (Lagrange form) cancels as well when q is far outside closely spaced nodes
+    ref = (abs(y1 * (q - x2) * (q - x3) / ((x1 - x2) * (x1 - x3))) + abs(y2 * (q - x1) * (q - x3) / ((x2 - x1) * (x2 - x3)))
+           + abs(y3 * (q - x1) * (q - x2) / ((x3 - x1) * (x3 - x2))))
+    return 64 * EPS * cond * (abs(a) * q * q + abs(b) * abs(q) + abs(c)) + 16 * EPS * ref
+
+
 def candidates(pts, q):
     """admissible reference values at q: a parabola through three consecutive nodes that include both neighbours of q
-    (chord in the first interval, last three nodes beyond the table)"""
+    (chord in the first interval, last three nodes beyond the table); each with its rounding allowance"""
     n = len(pts)
     k = max((j for j in range(n) if pts[j][0] <= q), default=-1)
     cands = []
     if q >= pts[-1][0]:
-        cands.append(('last3', lagr(pts[n - 3:n], q)))
+        cands.append(('last3', lagr(pts[n - 3:n], q), slack(pts[n - 3:n], q)))
     if 0 <= k < n - 1:
         if k - 1 >= 0:
-            cands.append((f'par{k - 1}', lagr(pts[k - 1:k + 2], q)))
+            cands.append((f'par{k - 1}', lagr(pts[k - 1:k + 2], q), slack(pts[k - 1:k + 2], q)))
         if k + 2 < n:
-            cands.append((f'par{k}', lagr(pts[k:k + 3], q)))
+            cands.append((f'par{k}', lagr(pts[k:k + 3], q), slack(pts[k:k + 3], q)))
         if k == 0:
-            cands.append(('chord0', line(pts[0], pts[1], q)))
+            cands.append(('chord0', line(pts[0], pts[1], q), slack(pts[0:3], q)))
     if k == -1:
-        cands += [('chord0', line(pts[0], pts[1], q)), ('par0', lagr(pts[0:3], q))]
+        cands += [('chord0', line(pts[0], pts[1], q), slack(pts[0:3], q)), ('par0', lagr(pts[0:3], q), slack(pts[0:3], q))]
     return cands
+
+
+def node_slack(pts, q):
+    """allowance at a tabulated Mach number: the largest allowance of a parabola through it"""
+    i = [x for x, _ in pts].index(q)
+    n = len(pts)
+    return max(slack(pts[j:j + 3], q) for j in range(max(0, i - 2), min(i, n - 3) + 1))
 
 
 def check_table(tab, bc, label):
@@ -98,14 +123,15 @@ def check_table(tab, bc, label):
         cd = raw * bc / K_REF
         exact = [y for (x, y) in pts if x == q]
         if exact:
-            ok = abs(cd - exact[0]) <= 1e-5 * exact[0] + 1e-12
-            ok2 = abs(raw - exact[0] * K_REF / bc) <= 1e-5 * exact[0] * K_REF / bc
+            ns = node_slack(pts, q)
+            ok = abs(cd - exact[0]) <= 1e-5 * exact[0] + 1e-12 + ns
+            ok2 = abs(raw - exact[0] * K_REF / bc) <= (1e-5 * exact[0] + ns) * K_REF / bc
             if not (ok and ok2):
                 out.append({'msg': f'{label} BC {bc}: retardation factor at tabulated Mach {q} is {raw!r}, CD x rho0 x pi/(8x144)/BC = {exact[0] * K_REF / bc!r}', 'key': None})
         else:
             cs = candidates(pts, q)
-            if not any(abs(cd - v) <= 1e-5 * abs(v) + 1e-9 for _, v in cs):
-                out.append({'msg': f'{label} BC {bc}: Cd used at Mach {q!r} is {cd!r}; admissible parabolas/chord give {cs}', 'key': None})
+            if not any(abs(cd - v) <= 1e-5 * abs(v) + 1e-9 + sl for _, v, sl in cs):
+                out.append({'msg': f'{label} BC {bc}: Cd used at Mach {q!r} is {cd!r}; admissible parabolas/chord give {[c_[:2] for c_ in cs]}', 'key': None})
         if len(out) >= 3:
             break
     return out, nq
@@ -132,13 +158,13 @@ def tight_identity(tab, label):
         cd = f(q) / k_code
         exact = [y for (x, y) in pts if x == q]
         if exact:
-            if abs(cd - exact[0]) > 1e-12 + 1e-12 * exact[0]:
+            if abs(cd - exact[0]) > 1e-12 + 1e-12 * exact[0] + node_slack(pts, q):
                 out.append({'msg': f'{label}: Cd at tabulated Mach {q} is {cd!r}, table says {exact[0]!r}', 'key': None})
             continue
         cs = candidates(pts, q)
-        hit = [nm for nm, v in cs if abs(cd - v) <= 1e-9 * max(1.0, abs(v))]
+        hit = [nm for nm, v, sl in cs if abs(cd - v) <= 1e-9 * max(1.0, abs(v)) + sl]
         if not hit:
-            out.append({'msg': f'{label}: Cd used at Mach {q!r} is {cd!r}; admissible parabolas/chord give {cs}', 'key': None})
+            out.append({'msg': f'{label}: Cd used at Mach {q!r} is {cd!r}; admissible parabolas/chord give {[c_[:2] for c_ in cs]}', 'key': None})
             if len(out) >= 3:
                 break
             continue
@@ -324,6 +350,14 @@ def plan(tier):
         for ms in itertools.combinations(MACHS, n):
             for cds in itertools.product(CDS, repeat=n):
                 cu.append([list(ms), list(cds)])
+    # closely spaced nodes (custom tables measured with Doppler radar are this dense): 5 nodes 0.005 / 0.001 Mach apart, and a dense cluster
+    # inside a coarse table; the rounding allowance of the oracle scales with the conditioning of the fit (slack())
+    dense = [[b + i * sp for i in range(5)] for sp in (0.005, 0.001) for b in (0.9, 2.0)] + [[0, 1.0, 1.005, 1.01, 3.0]]
+    if tier == 'thorough':
+        dense += [[b + i * sp for i in range(5)] for sp in (0.008, 0.002) for b in (0.5, 1.0, 2.5)] + [[0.5, 0.502, 1.0, 1.5, 1.501]]
+    for ms in dense:
+        for cds in itertools.product(CDS, repeat=5):
+            cu.append([list(ms), list(cds)])
     if tier == 'thorough':
         for ms in itertools.combinations((0.3, 0.7, 0.9, 1.0, 1.1, 3.0), 4):
             for cds in itertools.product((0.2, 0.6), repeat=4):
